@@ -143,6 +143,20 @@ pub fn worker(check: &dyn Check, verif_seed: u64, thorough: bool, w: u64, nw: u6
         Some(v) => v,
         None => (0..n).filter(|i| i % nw == w).collect(),
     };
+    if check.one_per_process() && idxs.len() != 1 {
+        // process-wide state is part of the scenario: every case runs in a process of its own
+        for idx in idxs {
+            let mut c = spawn_worker(check.id(), thorough, verif_seed, 0, 1, Some(&[idx]));
+            let out = c.stdout.take().unwrap();
+            let mut o = stdout.lock();
+            for l in std::io::BufReader::new(out).lines().map_while(Result::ok) {
+                let _ = writeln!(o, "{}", l);
+            }
+            let _ = o.flush();
+            let _ = c.wait();
+        }
+        return;
+    }
     for idx in idxs {
         // announce first, so that an abort() is attributable to this index
         {
